@@ -44,6 +44,22 @@ def store_scenarios(rng, n):
                 args += [tok("word", w="COUNT"), tok("int", n=cnt)]
             steps.append({"c": 0, "op": "scaniter", "at": 4 * len(keys) + 8, "reqs": [R("SCAN", *args)]})
         out.append({"handler": "example", "tracer": False, "nconns": 1, "model": True, "steps": steps})
+    # history: option values that contain the separators and words of the option syntax itself (a space, MATCH, COUNT and
+    # a number), after requests whose separate arguments spell the same text - whatever is remembered between SCAN requests
+    # must keep the argument boundaries
+    M, C, I0 = tok("word", w="MATCH"), tok("word", w="COUNT"), tok("int", n=0)
+    keys = [b"a1", b"a2", b"b1", b"a* COUNT 100", b"a1 COUNT 100", b"b* MATCH a*", b"COUNT", b"MATCH"]
+    reqs = [R("SET", raw(k), tok("str", "v1")) for k in keys]
+    for p in (b"a* COUNT 100", b"a? COUNT 100", b"a1 COUNT 100", b"MATCH", b"COUNT"):
+        words = p.split(b" ")
+        split = [I0, M, raw(words[0])] + [x for i in range(1, len(words) - 1, 2) for x in ((C if words[i] == b"COUNT" else M),
+                 (tok("int", n=100) if words[i + 1].isdigit() else raw(words[i + 1])))]
+        if len(words) > 1:
+            reqs.append(R("SCAN", *split))                                   # the text as separate arguments first ...
+        reqs.append(R("SCAN", I0, M, raw(p)))                              # ... then as ONE pattern
+        reqs.append(R("KEYS", raw(p)))
+        reqs.append(R("SCAN", I0, M, raw(p), C, tok("int", n=1000)))
+    out.append({"handler": "example", "tracer": False, "nconns": 1, "model": True, "steps": [{"c": 0, "op": "send", "chunking": "perreq", "reqs": reqs}]})
     return out
 
 
